@@ -420,7 +420,7 @@ impl<'a> Gen<'a> {
         }
     }
 
-    fn tx_script(&mut self, work: &mut MBucket, tx_index: usize) -> TxScript {
+    pub fn tx_script(&mut self, work: &mut MBucket, tx_index: usize) -> TxScript {
         let mut ops: Vec<Op> = Vec::new();
         let mut hs = Handles::default();
         let (lo, hi) = self.cfg.ops_per_tx;
